@@ -230,7 +230,9 @@ def to_sseq(s, shape=None):
     if isinstance(s, LRef):
         return to_sseq(s.seq, shape)
     if isinstance(s, SRange):
-        return SSeq(s.length, s.get, None, None, "range")
+        r = SSeq(s.length, s.get, None, None, "range")
+        r.range = s
+        return r
     items = tuple(s)
 
     def getter(i, items=items):
